@@ -40,7 +40,8 @@ def evaluate_scratch(name, tier, run_tests, only_checks):
     checks = only_checks or meta.get('checks') or [meta['property']]
     wt = tempfile.mkdtemp(prefix='hail-seed-', dir='/var/tmp')
     os.rmdir(wt)
-    r = sh('git', '-C', REPO, 'worktree', 'add', '-q', '--detach', wt, 'HEAD')
+    base = meta.get('base_commit', 'HEAD')  # a seed whose precondition a later repair removed is kept against the tree it was written for
+    r = sh('git', '-C', REPO, 'worktree', 'add', '-q', '--detach', wt, base)
     if r.returncode != 0:
         raise SystemExit(r.stderr)
     evd = tempfile.mkdtemp(prefix='seed-ev-')
@@ -49,7 +50,7 @@ def evaluate_scratch(name, tier, run_tests, only_checks):
         if r.returncode != 0:
             out = {'applies': False, 'error': r.stderr.strip()[:300]}
         else:
-            out = {'applies': True, 'tier': tier, 'checks': {}, 'where': 'scratch worktree of /repo HEAD ' + sh('git', '-C', REPO, 'rev-parse', '--short', 'HEAD').stdout.strip()}
+            out = {'applies': True, 'tier': tier, 'checks': {}, 'where': 'scratch worktree of /repo ' + ('HEAD ' if base == 'HEAD' else 'at the seed\'s base commit ') + sh('git', '-C', REPO, 'rev-parse', '--short', base).stdout.strip()}
             if run_tests:
                 t = sh(*TESTS, cwd=wt)
                 m = re.search(r'(\d+) passed', t.stdout)
@@ -77,6 +78,8 @@ def evaluate(name, tier, run_tests, only_checks):
     meta = json.load(open(meta_p))
     patch = os.path.join(d, 'patch.diff')
     checks = only_checks or meta.get('checks') or [meta['property']]
+    if meta.get('base_commit'):
+        return evaluate_scratch(name, tier, run_tests, only_checks)
     if not clean():
         raise SystemExit(f'{REPO} has local modifications; refusing')
     r = sh('git', '-C', REPO, 'apply', '--check', patch)
